@@ -813,6 +813,22 @@ func propC18(run *Run, n int) {
 		if r.Chance(1, 40) {
 			addC18ChainCase(run, r, cfg)
 		}
+		if r.Chance(1, 25) {
+			// the first patch adds empty / nested containers, the second diff removes or changes them
+			a0 := cfg.Obj(r, 1)
+			a1 := a0.Clone()
+			a1.O["ports"] = []*Val{VArr(), VArr(VArr()), VObj(), VArr(VObj()), VNull()}[r.Intn(5)]
+			if r.Chance(1, 2) {
+				a1.O["more"] = cfg.Doc(r, 1)
+			}
+			b := a0.Clone()
+			if r.Chance(1, 2) {
+				b = cfg.Mutate(r, a1, 2)
+			}
+			if a1.O["more"] == nil || a1.O["more"].K != KVoid {
+				addC18ChainedPatchCase(run, a0, a1, b)
+			}
+		}
 		if r.Chance(1, 8) {
 			// the readers on texts that are not the library's own output (correspondence only)
 			a, b := c18Pair(r, cfg)
@@ -973,6 +989,50 @@ func sortV1Hunks(out string) string {
 	return "ok < " + strings.Join(hs, " ") + " >"
 }
 
+// addC18ChainedPatchCase: a = a0.Patch(a0.Diff(a1)) (a value the v1 LIBRARY built), then a.Diff(b).RenderPatch(): the text must
+// be the text of the same diff computed from documents READ from text (rendering depends on the values only), and
+// reading it back and patching a must give b
+func addC18ChainedPatchCase(run *Run, a0, a1, b *Val) {
+	w0, w1, wb := a0.Wire(), a1.Wire(), b.Wire()
+	c := Case{Recipe: Recipe{"c18chainp", []string{w0, w1, wb}}, Desc: map[string]string{"api": "v1", "a0": a0.Human(), "a1": a1.Human(), "b": b.Human()}, Nontrivial: true, Sig: "chainp|" + w0 + w1 + wb}
+	verdict := "ok"
+	res, _ := safely(func() string {
+		n0 := mustNodeV1(w0)
+		a, err := n0.Patch(n0.Diff(mustNodeV1(w1)))
+		if err != nil {
+			return "done"
+		}
+		bn := mustNodeV1(wb)
+		text, err := a.Diff(bn).RenderPatch()
+		ref, err2 := mustNodeV1(w1).Diff(mustNodeV1(wb)).RenderPatch()
+		if (err == nil) != (err2 == nil) || text != ref {
+			verdict = "fail the JSON Patch of a document returned by Patch is " + short(text) + " but the same documents read from text give " + short(ref)
+			return "done"
+		}
+		if err != nil {
+			return "done"
+		}
+		rd, err := jd1.ReadPatchString(text)
+		if err != nil {
+			verdict = "fail v1 ReadPatchString rejects the library's own patch: " + err.Error()
+			return "done"
+		}
+		r, err := a.Patch(rd)
+		if err != nil {
+			verdict = "fail patching the patched document with its own JSON Patch read back fails: " + err.Error()
+		} else if !r.Equals(mustNodeV1(wb)) {
+			verdict = "fail patching the patched document with its own JSON Patch read back does not give b"
+		}
+		return "done"
+	})
+	if res == "panic" {
+		verdict = "fail panic in the chained JSON Patch rendering"
+	}
+	c.Probes = append(c.Probes, Probe{Kind: "direct", Rel: "C18 v1 JSON Patch of a document returned by Patch = that of the same document read from text; read back it reproduces b", Want: verdict})
+	run.Count("mode:list-chained-patch")
+	run.Add(c)
+}
+
 func addC18PatchCase(run *Run, a, b *Val) {
 	aw, bw := a.Wire(), b.Wire()
 	none := V1Meta{}
@@ -1108,6 +1168,9 @@ func init() {
 	}
 	recipes["c18readpatch"] = func(run *Run, a []string) { addV1ReadPatchTextCase(run, a[0], mustVal(a[1])) }
 	recipes["c18readmerge"] = func(run *Run, a []string) { addV1ReadMergeTextCase(run, mustVal(a[0]), mustVal(a[1])) }
+	recipes["c18chainp"] = func(run *Run, a []string) {
+		addC18ChainedPatchCase(run, mustVal(a[0]), mustVal(a[1]), mustVal(a[2]))
+	}
 	recipes["c18p"] = func(run *Run, a []string) { addC18PatchCase(run, mustVal(a[0]), mustVal(a[1])) }
 	recipes["c18chain"] = func(run *Run, a []string) {
 		cfg := DefaultCfg()
